@@ -513,19 +513,26 @@ where
                         }
                         _ => None,
                     }));
-                    extends
-                        .iter()
-                        .filter_map(|parent| parent.expr.as_ident())
-                        .for_each(|ident| {
+                    extends.iter().for_each(|parent| {
+                        if let Some(ident) = parent.expr.as_ident() {
+                            // `extends Omit<Base, 'a'>`: the parent keeps its type arguments
                             self.resolve_type_elements(
                                 &TsType::TsTypeRef(TsTypeRef {
                                     type_name: TsEntityName::Ident(ident.clone()),
-                                    type_params: None,
-                                    span: DUMMY_SP,
+                                    type_params: parent.type_args.clone(),
+                                    span: parent.span,
                                 }),
                                 props,
                             )
-                        });
+                        } else {
+                            HANDLER.with(|handler| {
+                                handler.span_err(
+                                    parent.span,
+                                    "Types from other modules can't be resolved.",
+                                );
+                            });
+                        }
+                    });
                 } else if ident.ctxt.has_mark(self.unresolved_mark) {
                     match &*ident.sym {
                         "Partial" => {
